@@ -52,6 +52,9 @@ pub struct PgCase {
     pub manager: Option<u8>,
     pub pool: Option<PoolCase>,
     pub runtime: bool,
+    /// call create_pool from inside a tokio runtime context (no runtime is *passed* unless `runtime`)
+    #[serde(default)]
+    pub in_tokio: bool,
 }
 
 fn ssl(i: u8) -> SslMode {
@@ -387,6 +390,14 @@ pub fn check(c: &PgCase) -> Verdict {
         }
     }
     let rt = if c.runtime { Some(Runtime::Tokio1) } else { None };
+    // an ambient tokio context must make no difference: only the runtime argument counts
+    let ambient = if c.in_tokio {
+        v.label("create_pool:inside-tokio-context");
+        tokio::runtime::Builder::new_current_thread().enable_all().build().ok()
+    } else {
+        None
+    };
+    let _guard = ambient.as_ref().map(|r| r.enter());
     let cp = catch_unwind(AssertUnwindSafe(|| cfg.create_pool(rt, NoTls)));
     match cp {
         Err(p) => v.fail("create-pool-panicked", format!("create_pool() panicked: {:?}", vcore::sched::classify_panic(p))),
@@ -586,6 +597,7 @@ pub fn case() -> BoxedStrategy<PgCase> {
             })
             .boxed()),
         any::<bool>(),
+        prop::bool::weighted(0.3),
     );
     (a, b, c)
         .prop_map(|(a, b, c)| PgCase {
@@ -611,6 +623,7 @@ pub fn case() -> BoxedStrategy<PgCase> {
             manager: c.0,
             pool: c.1,
             runtime: c.2,
+            in_tokio: c.3,
         })
         .boxed()
 }
@@ -673,5 +686,6 @@ pub fn decode(data: &[u8]) -> PgCase {
             lifo: v % 2 == 1,
         }),
         runtime: flags >> 23 & 1 == 1,
+        in_tokio: flags >> 22 & 1 == 1,
     }
 }
